@@ -161,7 +161,7 @@ func (uc UseCase) discoverServer(
 	if _, err := uc.serverRepo.Update(ctx, svr, func(updated *server.Server) bool {
 		// some of the statuses that we don't want to run discovery for,
 		// have appeared in the process, so we abort here
-		if updated.HasDiscoveryStatus(ds.Details | ds.PortRetry | ds.DetailsRetry) {
+		if updated.HasAnyDiscoveryStatus(ds.Details | ds.PortRetry | ds.DetailsRetry) {
 			return false
 		}
 		// prevent further submissions until the retry status is cleared
